@@ -111,6 +111,92 @@ def check_scripts(ck: Check):
     ck.extra["script_cases"] = len(cases)
 
 
+DISPATCH = {   # api -> (coq function, import, kafka code set of model/C06_Codes.v, required recovery per code)
+    "heartbeat": ("heartbeatDispatch", "HeartbeatDispatch", [15, 16, 22, 25, 27]),
+    "join": ("joinDispatch", "JoinDispatch", [14, 15, 16, 25]),
+    "sync": ("syncDispatch", "SyncDispatch", [15, 16, 22, 25, 27]),
+    "commit": ("commitDispatch", "CommitDispatch", [14, 15, 16, 22, 25, 27]),
+}
+DISPATCH_UNITS = ["HeartbeatDispatch", "JoinRetryDispatch", "JoinDispatch", "SyncDispatch", "CommitDispatch"]
+RECOVERY = {"ACoordinatorDead", "ARequestRejoin", "AResetGeneration", "ABackoff"}
+
+
+def check_dispatch(ck: Check):
+    """(1) the translated dispatch chains evaluated inside Coq equal what the real handlers do, for every
+    error code -1..100 (validation of the translator on every run); (2) monitor on the real handlers: no
+    code a Kafka coordinator can answer ends the member, each triggers a recovery action."""
+    codes = list(range(-1, 101))
+    cases = [{"api": api, "code": c} for api in DISPATCH for c in codes]
+    impl = run_impl("c06_dispatch_impl.py", {"cases": cases}, timeout=300)["out"]
+    body = []
+    for api, (fn, _imp, _k) in DISPATCH.items():
+        body.append(f"Eval vm_compute in (map (fun c => (obs ({fn} c), ending ({fn} c))) "
+                    f"[{'; '.join(f'({c})' if c < 0 else str(c) for c in codes)}]).")
+    body.append("Eval vm_compute in (map (fun c => has ARetryJoin (joinRetryDispatch c)) "
+                f"[{'; '.join(f'({c})' if c < 0 else str(c) for c in codes)}]).")
+    okc, out = ck.coq_eval("c06_dispatch", ["DispatchActs", "C06_Codes"] + DISPATCH_UNITS, "\n".join(body) + "\n")
+    vals = [parse_coq_value(v) for v in parse_eval_outputs(out)] if okc else []
+    if len(vals) != len(DISPATCH) + 1:
+        ck.obligation("correspondence:dispatch-evaluated-in-coq", False, out[-400:])
+        return
+    mism = 0
+    by = {(r["api"], r["code"]): r for r in impl}
+    for (api, (fn, _imp, kafka)), col in zip(DISPATCH.items(), vals[:-1]):
+        for c, (mobs, mend) in zip(codes, col):
+            r = by[(api, c)]
+            def flat(x):
+                if isinstance(x, str):
+                    return x
+                if isinstance(x, (list, tuple)):
+                    if len(x) == 2 and x[0] == "ctor":
+                        return flat(x[1])
+                    return " ".join(flat(y) for y in x)
+                return str(x)
+            mobs = [flat(a) for a in mobs]
+            mend_s = flat(mend)
+            if r["raise"]:
+                rend = r["raise"].split(":")[0]
+            elif api == "join" and r["ret"] == "Retried":
+                rend = None          # MEMBER_ID_REQUIRED: the loop sends the next JoinGroup (checked below)
+            else:
+                rend = {"RTrue": "AReturn RTrue", "RFalse": "AReturn RFalse", "RNone": "AReturn RNone",
+                        "RValue": "AReturn RValue"}.get(r["ret"])
+            model_end = mend_s
+            if api == "commit" and model_end == "AFallThrough":
+                model_end = "AReturn RNone"
+            if c == 0 and api in ("join", "sync", "heartbeat"):
+                continue             # the success path is not part of the dispatch (covered by the join scripts)
+            same = mobs == r["acts"] and (rend is None or model_end == rend or
+                                          (model_end == "AFallThrough" and rend == "AReturn RNone"))
+            ck.count(key=("dispatch", api, c), nontrivial=c in kafka,
+                     sample={"api": api, "code": c, "real": r, "model": [mobs, mend_s]} if c in kafka and c % 5 == 0 else None)
+            if not same:
+                mism += 1
+                if mism <= 3:
+                    ck.obligation(f"correspondence:dispatch:{api}:{c}", False,
+                                  f"model {mobs} {mend_s} vs real {r['acts']} {r['ret']} {r['raise']}")
+            # monitor on the real handler
+            if c in kafka:
+                if r["raise"] and api != "commit":
+                    ck.violation(f"{api} reply with error code {c} (a code a Kafka coordinator sends for this request) "
+                                 f"ends the member: the handler raises {r['raise']}",
+                                 {"api": api, "code": c, "observed": r}, signature=f"dispatch-fatal:{api}:{c}")
+                elif not (set(r["acts"]) & RECOVERY) and not (api == "commit" and c == 14):
+                    ck.violation(f"{api} reply with error code {c}: the handler performs no recovery action "
+                                 f"(observed {r['acts']})", {"api": api, "code": c, "observed": r},
+                                 signature=f"dispatch-no-recovery:{api}:{c}")
+    retry_col = vals[-1]
+    for c, mr in zip(codes, retry_col):
+        r = by[("join", c)]
+        real_retry = r["ret"] == "Retried" and c != 0
+        if bool(mr) != real_retry:
+            mism += 1
+            ck.obligation(f"correspondence:dispatch:joinretry:{c}", False, f"model retry={mr} real={r}")
+    ck.obligation("correspondence:dispatch-chains-model-vs-real-handlers", mism == 0,
+                  f"{mism} differ of {len(cases)}")
+    ck.extra["dispatch_cases"] = len(cases)
+
+
 def monitor_convergence(ck, sc, r, quiet):
     bad = 0
 
@@ -198,6 +284,9 @@ def run(ck: Check):
         "Coq 8.16.1 kernel; vm_compute for script evaluation",
         "model/C06_JoinScript.v hand-written; tied to perform_group_join by exhaustive differential testing over "
         "reply scripts (fake coordinator object, real request builders)",
+        "translator/dispatch2gallina.py for the error-dispatch chains of _do_heartbeat, perform_group_join, "
+        "_send_sync_group_request, _do_commit_offsets (validated per run against the real handlers for codes -1..100); "
+        "model/C06_Codes.v: the per-API error codes of a Kafka coordinator, written by hand",
         "convergence is decided by a monitor on simulated groups (virtual time), not by a theorem: partial",
         "simulated group coordinator as oracle",
     ]
@@ -205,8 +294,10 @@ def run(ck: Check):
                       "id x reply scripts over 12 reply kinds (all of length <= 2, sampled/all of length 3-4) x JoinGroup "
                       "v0-v5; (b) simulated groups of 1-4 members with fault sequences followed by a quiet period; one "
                       "evaluation = one script or one run; non-trivial = >= 2 assignors and >= 1 reply, or >= 2 generations")
+    ck.regenerate(DISPATCH_UNITS)
     ck.coq_props("C06")
     check_scripts(ck)
+    check_dispatch(ck)
     rng = random.Random(ck.seed * 271 + 6)
     n = ck.n(40, 600)
     quiet = 12.0
